@@ -898,6 +898,9 @@ pub fn replay(defs: &[CheckDef], path: &str) -> i32 {
             println!("replay {}: property {} held", path, def.id);
             if let Outcome::Done(rep) = &oc {
                 println!("  nontrivial={} labels={:?}", rep.nontrivial, rep.labels);
+                if std::env::var_os("VCHECK_COUNTERS").is_some() {
+                    println!("  counters={:?}", rep.counters);
+                }
             }
             0
         }
